@@ -407,8 +407,13 @@ class StrategyBase(Node):
 
         self._last_chk = 0
 
-        # default commission function
-        self.commission_fn = self._dflt_comm_fn
+        # default commission function; a strategy attached to an existing
+        # parent trades on the parent's terms, like it takes over the
+        # parent's integer_positions
+        if self.parent is not self and isinstance(self.parent, StrategyBase):
+            self.commission_fn = self.parent.commission_fn
+        else:
+            self.commission_fn = self._dflt_comm_fn
 
         self._paper_trade = False
         self._positions = None
